@@ -75,6 +75,51 @@ func buildC13(c c13Case) (*astisub.Subtitles, string) {
 		}
 		return s, ""
 	}
+	if c.Source == "ssa" {
+		// styles (no inheritance in SSA) referenced by events through the Style column; run styles do not exist
+		d := ssaDoc{Info: map[string]string{"Title": "t"}}
+		for _, st := range c.Styles {
+			f := "Arial"
+			d.Styles = append(d.Styles, ssaStyleM{Name: st.ID, Fontname: &f})
+		}
+		for _, cu := range c.Cues {
+			e := ssaEventM{Start: cu.Start / 10, End: cu.End / 10, Style: cu.Style}
+			var runs []ssaRun
+			for _, r := range cu.Runs {
+				runs = append(runs, ssaRun{Text: r.Text})
+			}
+			e.Lines = [][]ssaRun{runs}
+			d.Events = append(d.Events, e)
+		}
+		r := ssaRendering{EOL: "\n", InfoHeader: "[Script Info]", StylesHeader: "[V4 Styles]", EventsHeader: "[Events]", StyleCols: []string{"Name", "Fontname"},
+			EventCols: []string{"Marked", "Start", "End", "Style", "Name", "MarginL", "MarginR", "MarginV", "Effect", "Text"}, KeySpace: true, TrueAs: "-1"}
+		s, err := astisub.ReadFromSSA(bytes.NewReader(renderSSA(d, r)))
+		if err != nil {
+			return nil, "SSA reader rejected the generated document: " + err.Error()
+		}
+		return s, ""
+	}
+	if c.Source == "vtt" {
+		// regions referenced by cues, plus a STYLE block (the default style definition no cue refers to)
+		d := vttDoc{Styles: [][]string{{"::cue { color: red }"}}}
+		for _, rg := range c.Regions {
+			d.Regions = append(d.Regions, vttRegion{ID: rg.ID, Width: "40%"})
+		}
+		for _, cu := range c.Cues {
+			vc := vttCue{Start: cu.Start, End: cu.End, Region: cu.Region}
+			var runs []vttRun
+			for _, r := range cu.Runs {
+				runs = append(runs, vttRun{Text: r.Text})
+			}
+			vc.Lines = []vttLine{{Runs: runs}}
+			d.Cues = append(d.Cues, vc)
+		}
+		s, err := astisub.ReadFromWebVTT(bytes.NewReader(renderVTT(d, vttRendering{EOL: "\n", SettingsSep: " "})))
+		if err != nil {
+			return nil, "WebVTT reader rejected the generated document: " + err.Error()
+		}
+		return s, ""
+	}
 	s := astisub.NewSubtitles()
 	s.Metadata = &astisub.Metadata{Framerate: 25, STLDisplayStandardCode: "0"}
 	for _, st := range c.Styles {
@@ -117,6 +162,43 @@ func buildC13(c c13Case) (*astisub.Subtitles, string) {
 
 func msClock(ms int64) ttmlTime {
 	return ttmlTime{Form: "clockfrac", H: ms / 3600000, M: ms / 60000 % 60, S: ms / 1000 % 60, Frac: fmt.Sprintf("%03d", ms%1000)}
+}
+
+// reachOf computes the reachability closure over the object graph of a list (by identifier): cue -> style, run -> style,
+// cue -> region -> style, style -> parent*. It is the harness's own traversal, used for lists obtained by parsing.
+func reachOf(s *astisub.Subtitles) (styles, regions map[string]bool) {
+	styles, regions = map[string]bool{}, map[string]bool{}
+	var mark func(st *astisub.Style)
+	mark = func(st *astisub.Style) {
+		for st != nil && !styles[st.ID] {
+			styles[st.ID] = true
+			st = st.Style
+		}
+	}
+	for _, it := range s.Items {
+		mark(it.Style)
+		for _, l := range it.Lines {
+			for _, li := range l.Items {
+				mark(li.Style)
+			}
+		}
+		if it.Region != nil {
+			regions[it.Region.ID] = true
+			mark(it.Region.Style)
+		}
+	}
+	// only definitions actually present count
+	for id := range styles {
+		if _, ok := s.Styles[id]; !ok {
+			delete(styles, id)
+		}
+	}
+	for id := range regions {
+		if _, ok := s.Regions[id]; !ok {
+			delete(regions, id)
+		}
+	}
+	return
 }
 
 // reach computes the reachability closure of the reference graph, from the model alone.
@@ -268,8 +350,14 @@ func checkC13(c c13Case) string {
 			return "before Optimize: " + m
 		}
 	}
-	s.Optimize()
 	wantS, wantR := reachC13(c)
+	if c.Source == "ssa" || c.Source == "vtt" {
+		// parsed sources carry definitions the case model does not list (e.g. the WebVTT default style): traverse the object graph
+		wantS, wantR = reachOf(s)
+	} else if gs, gr := reachOf(s); fmt.Sprint(len(gs), len(gr)) != fmt.Sprint(len(wantS), len(wantR)) {
+		return fmt.Sprintf("harness: model closure (%d styles, %d regions) and object-graph closure (%d, %d) disagree", len(wantS), len(wantR), len(gs), len(gr))
+	}
+	s.Optimize()
 	if len(items) == 0 {
 		// an empty list is left alone
 		if len(s.Styles) != len(styleDefs) || len(s.Regions) != len(regionDefs) {
@@ -393,7 +481,7 @@ func TestC13(t *testing.T) {
 			}
 			c.Cues = append(c.Cues, cu)
 		}
-		c.Source = rapid.SampledFrom([]string{"", "", "ttml"}).Draw(rt, "source")
+		c.Source = rapid.SampledFrom([]string{"", "", "ttml", "ttml", "ssa", "vtt"}).Draw(rt, "source")
 		c.RemoveStyling = rapid.IntRange(0, 4).Draw(rt, "removestyling") == 0
 		// labels
 		wantS, wantR := reachC13(c)
